@@ -424,6 +424,18 @@ class Case:
                 "classes": self.idx, "values": [str(v) for v in self.vals], "extra": [str(e) for e in self.extra]}
 
 
+def class_alias_vals(n, reads, idx, vals):
+    """the value each object holds when the aliased call starts (see Case.alias_vals)"""
+    cv = {}
+    for k in range(n):
+        if k not in reads:
+            cv[idx[k]] = vals[k]
+    for k in range(n):
+        if k in reads:
+            cv[idx[k]] = vals[k]
+    return [cv[idx[k]] for k in range(n)]
+
+
 def class_values(rng, n, dests, reads, idx, gen, garbage):
     """values by position: equal inside a class for the positions that are read; a pure destination holds garbage
     in the distinct-objects call"""
@@ -768,8 +780,9 @@ def model_lines(c):
         W = 1 << (1 << K)
         base, _, t = c.op.partition(".")
         num = RM_MODEL_OPS.get(c.op if t not in ("u64", "i64") else base + ".w")
-        if c.op in ("exp.u64", "exp.ru"):
-            num = 8 if (not mg or c.extra[0] < (1 << 64)) else None
+        if c.op == "exp.u64" or c.op == "exp.ru" and not mg:
+            num = 8         # exp(a,b,UDItype) binary loop (MG_ACTIVE) / one exp_mod primitive (MG_INACTIVE); the windowed
+                            # body exp(a,b,const ruint<K>&) of MG_ACTIVE has its own model (rm_expw), see below
         if num is None:
             return None
         w = c.extra[0] if c.extra else 0
@@ -821,6 +834,9 @@ def model_lines(c):
             v4 = (list(vs) + ["z"] * 4)[:4]
             out.append("polyb %d %d %d %s %s" % (c.param, k, num, " ".join(str(i + 1) for i in i4), " ".join(str(v) for v in v4)))
         return out
+    if c.dom == "poly" and c.op in ("pdivmod", "pmod"):
+        return ["%s %d %s %s" % ("ppdivmod" if c.op == "pdivmod" else "ppmod", c.param, " ".join(str(i + 1) for i in ix), " ".join(str(v) for v in vs))
+                for ix, vs in ((fresh_idx, c.vals), (c.idx, c.alias_vals()))]
     if c.dom == "poly" and c.op in ("divmodin", "gcd5"):
         return ["%s %d %s %s" % ("pdivmodin" if c.op == "divmodin" else "pgcdx", c.param, " ".join(str(i + 1) for i in ix), " ".join(str(v) for v in vs))
                 for ix, vs in ((fresh_idx, c.vals), (c.idx, c.alias_vals()))]
@@ -856,6 +872,8 @@ def _rm_lines(c, mg, num, W, p, w):
 def model_view(c, mline):
     """the model's output line as position values comparable with the harness output"""
     t = mline.split()
+    if c.dom == "poly" and c.op in ("pdivmod", "pmod"):
+        return t[:c.n], t[c.n]          # the multiplier m of the pseudo-division is returned through a reference: compared as R
     if c.dom == "RU" and c.op in ("div_q", "div_r"):
         return [t[0], t[2], t[3]], None
     if c.dom == "RU" and c.op == "div_q.w":
@@ -940,6 +958,20 @@ def spec_expect(c):
     return None
 
 
+_RUN_ENV_OK = True
+
+
+def _run_lines_env(binary, text, timeout=1200, env_extra=None):
+    import subprocess
+    env = dict(os.environ)
+    env.update(env_extra or {})
+    try:
+        p = subprocess.run([binary], input=text, stdout=subprocess.PIPE, stderr=subprocess.PIPE, timeout=timeout, universal_newlines=True, errors="replace", env=env)
+        return p.returncode, p.stdout.splitlines(), p.stderr
+    except subprocess.TimeoutExpired:
+        return 124, [], "[timeout]"
+
+
 _lib_lock = __import__("threading").Lock()
 _orig_build_repo_lib = vf.build_repo_lib
 
@@ -1016,6 +1048,9 @@ RU_OPS = {
     "add_wc.c": (3, [0], [1, 2], "bit", ""), "add_wcin.c": (2, [0], [0, 1], "bit", ""),
     "sub_wc.c": (3, [0], [1, 2], "bit", ""), "sub_wcin.c": (2, [0], [0, 1], "bit", ""), "sub_wcin": (2, [0], [0, 1], "bit", ""),
     "left_shift_1.c": (2, [0], [1], None, ""), "right_shift_1.c": (2, [0], [1], None, ""),
+    # sub-object aliasing: an operand is the Low / High half of the double-width destination (or the destination a half of the operand)
+    "lmul.sub": (4, [0, 1], [2, 3], None, "sub"), "lsquare.sub": (3, [0, 1], [2], None, "sub"), "laddmul.sub": (5, [0, 1], [2, 3, 4], None, "sub"),
+    "mod_n.sub": (4, [0], [1, 2, 3], None, "subnz3"),
     "arazi_qi": (2, [0], [1], None, "odd1"), "mod_n.l": (2, [0], [1], "wide", "nz1"), "mulin.w": (1, [0], [0], "u64", ""),
     "laddmul.c": (5, [0, 1], [2, 3, 4], None, "naive"), "exp_mod.w": (3, [0], [1, 2], "u64", "expw"),
     "div.w": (2, [0], [1], "u64nz", "same"), "div_r.w": (1, [], [0], "u64nz", "same"),
@@ -1024,7 +1059,7 @@ RU_OPS = {
     "op<<=": (1, [0], [0], "shift", ""), "op>>=": (1, [0], [0], "shift", ""),
     "op=+": (3, [0], [1, 2], None, ""), "op=-": (3, [0], [1, 2], None, ""), "op=*": (3, [0], [1, 2], None, ""), "op=/": (3, [0], [1, 2], None, "nz2"), "op=%": (3, [0], [1, 2], None, "nz2"),
 }
-RU_NAMES = {"mod_n.l": "an", "laddmul.c": "hlbcd", "exp_mod.w": "rbn", "div.w": "qa", "div_r.w": "a", "bezout_mod": "xycd", "lmul": "hlbc", "lmul_naive": "hlbc", "laddmul": "hlbcd", "div": "qrab", "exp_mod": "rben"}
+RU_NAMES = {"lmul.sub": "lhbc", "lsquare.sub": "lhb", "laddmul.sub": "lhbcd", "left_shift.sub": "lha", "mod_n.sub": "rlhn", "mod_n.l": "an", "laddmul.c": "hlbcd", "exp_mod.w": "rbn", "div.w": "qa", "div_r.w": "a", "bezout_mod": "xycd", "lmul": "hlbc", "lmul_naive": "hlbc", "laddmul": "hlbcd", "div": "qrab", "exp_mod": "rben"}
 
 
 def ru_valid(op, tag, v, W):
@@ -1039,6 +1074,8 @@ def ru_valid(op, tag, v, W):
     if tag == "expw" and (v[2] < 3 or v[2] % 2 == 0):
         return False
     if tag == "odd1" and v[1] % 2 == 0:
+        return False
+    if tag == "subnz3" and v[3] == 0:
         return False
     return True
 
@@ -1099,6 +1136,11 @@ def ru_spec(op, K, v, s):
     if op == "sub_wcin": return {0: (v[0] - v[1] - s) % W}
     if op == "left_shift_1.c": return {0: (v[1] << 1) % W, "R": (v[1] << 1) // W}
     if op == "right_shift_1.c": return {0: v[1] >> 1, "R": v[1] & 1}
+    if op == "lmul.sub": return {0: v[2] * v[3] % W, 1: v[2] * v[3] // W}
+    if op == "lsquare.sub": return {0: v[2] * v[2] % W, 1: v[2] * v[2] // W}
+    if op == "laddmul.sub": return {0: (v[2] * v[3] + v[4]) % W, 1: (v[2] * v[3] + v[4]) // W % W}
+    if op == "left_shift.sub": return {0: (v[2] << s) % W, 1: ((v[2] << s) // W) % W}
+    if op == "mod_n.sub": return {0: (v[2] * W + v[1]) % v[3]}
     if op == "arazi_qi": return {0: pow(v[1], -1, W)}
     if op == "mod_n.l": return {0: s % v[1]}
     if op == "mulin.w": return {0: v[0] * s % W}
@@ -1132,7 +1174,9 @@ def gen_ru_cases(rng, exes, quick, cases):
         W = 1 << (1 << K)
         for op, (n, dests, reads, sk, tag) in sorted(RU_OPS.items()):
             if tag == "naive" and K >= 10:
-                continue       # lmul above the Karatsuba threshold is documented "NOT safe" (rumul.h) for outputs aliasing inputs
+                continue
+            if tag in ("sub", "subnz3") and K > 8:
+                continue       # double-width object ruint<K+1>: K = 6, 7, 8       # lmul above the Karatsuba threshold is documented "NOT safe" (rumul.h) for outputs aliasing inputs
             if K >= 10 and (op in ("exp_mod", "exp_mod.w", "inv_mod", "gcd", "bezout_mod") or quick and op.startswith("op")):
                 continue
             for idx in partitions(n, dests):
@@ -1145,6 +1189,8 @@ def gen_ru_cases(rng, exes, quick, cases):
                         x = rng.below(2)
                     elif sk == "shift":
                         x = rng.choice([0, 1, 63, 64, 65, (1 << K) - 1, (1 << K) // 2, rng.range(0, (1 << K) - 1)])
+                    elif sk == "shift2":
+                        x = rng.choice([0, 1, 63, 64, 65, (1 << K) - 1, 1 << K, (1 << K) + 1, (2 << K) - 1, rng.range(0, (2 << K) - 1)])
                     elif sk == "wide":
                         x = rng.choice([0, 1, W - 1, W, W * W - 1, rng.range(0, W * W - 1), rng.range(0, W * W - 1)])
                     elif sk:
@@ -1195,6 +1241,9 @@ def _rm_ops():
             o[b + "." + t] = (1, [0], [0], t, "")
         o["inv." + t] = (1, [0], [], t, "")
         o["addmul." + t] = (2, [0], [0, 1], t, "")
+    # sub-object aliasing: the ruint<K> operand is the member Value of an rmint position (of the destination when e == a)
+    o["exp.val"] = (3, [0], [1, 2], None, "")           # exp(a, b, e.Value)
+    o["reduction.val"] = (2, [0], [1], None, "")        # reduction(a, b.Value)
     o["exp.u64"] = (2, [0], [1], "e64", "")
     o["exp.ru"] = (2, [0], [1], "eru", "")
     return o
@@ -1234,6 +1283,10 @@ def rm_spec(op, K, mg, p, v, w):
              "addmul": lambda: (a + b * wr * Ri) % p}.get(base)
         e = r() if r else None
         return None if e is None else {0: e}
+    if op == "exp.val":
+        return {0: raw(pow(user(v[1]), v[2], p))} if p % 2 == 1 else None
+    if op == "reduction.val":
+        return {0: v[1] * Ri % p}
     if op == "exp.u64" or op == "exp.ru":
         return {0: raw(pow(user(v[1]), w, p))} if p % 2 == 1 else None
     r = {"add": lambda: (v[1] + v[2]) % p, "op=+": lambda: (v[1] + v[2]) % p, "sub": lambda: (v[1] - v[2]) % p, "op=-": lambda: (v[1] - v[2]) % p,
@@ -1281,7 +1334,7 @@ def gen_rm_cases(rng, exes, quick, cases):
             mods = rm_moduli(rng, K, mg, quick)
             for pi, p in enumerate(mods):
                 for op, (n, dests, reads, sk, tag) in sorted(RM_OPS.items()):
-                    base = op.partition(".")[0]
+                    base = op.partition(".")[0] if op not in ("exp.val", "reduction.val") else op.partition(".")[0]
                     if base == "exp" and p % 2 == 0 or op == "to_mg" and not mg:
                         continue            # exp_mod wants an odd modulus; to_mg exists for MG_ACTIVE only
                     if base == "square_root" and not (p in (101, 103, 29, 3) or pi in (3, 4, 5) and p % 8 != 1):
@@ -1609,6 +1662,15 @@ POLY_OPS = {
     "ratrecon.f": (4, [0, 1], [2, 3], "pdegf", "nzall"), "powmod": (3, [0], [1, 2], "pexp", "nz2"),
     "inv": (2, [0], [1], None, "unit1"), "shift": (2, [0], [1], "pexp", ""),
 }
+POLY_SCALAR_OPS = ("add.s", "sub.s", "mul.s", "div.s", "mod.s", "add.sl", "sub.sl", "mul.sl", "div.sl", "mod.sl", "addin.s", "subin.s", "mulin.s", "divin.s",
+                   "modin.s", "axpy.s", "axmy.s", "maxpy.s", "axpyin.s", "maxpyin.s", "axmyin.s")
+for _o in POLY_SCALAR_OPS:
+    _n, _d, _r, _sk, _tag = POLY_OPS[_o]
+    POLY_OPS[_o + "@"] = (_n, _d, _r, "subobj", _tag)      # the scalar operand IS a coefficient of one of the objects (sub-object aliasing)
+POLY_OPS["assign.s"] = (1, [0], [], "coef", "")
+POLY_OPS["assign.ds"] = (1, [0], [], "coefd", "")
+POLY_OPS["assign.s@"] = (1, [0], [], "subobj", "")
+POLY_OPS["assign.ds@"] = (1, [0], [], "subobj", "")
 POLY_KARA_OPS = ("mul", "mulin", "sqr", "karamul", "axpy", "axmy", "maxpy", "axpyin", "axmyin", "maxpyin")
 POLY_NAMES = {"ratreconcheck": "ndpm", "ratrecon.f": "ndpm", "divmod": "qrab", "gcd5": "duvpq", "divmodin": "qrb", "pdivmod": "qrab", "ratrecon": "ndpm", "powmod": "wpu"}
 
@@ -1752,11 +1814,27 @@ def gen_field_cases(rng, exes, quick, cases):
                     if tag == "unit1":
                         setpos(1, str(rng.range(1, p - 1)))
                     ex = [x] if sk else []
+                    if sk == "coefd":
+                        ex = [x, 0, rng.choice([0, 1, 3])]
                     if sk == "pdegf":
                         ex = [x, rep % 2]
                     if sk == "trunc":
                         v0 = rng.range(0, 3)
                         ex = [v0, v0 + rng.range(0, 4)]
+                    if sk == "subobj":
+                        # the scalar is coefficient i of the object at position k: every position whose object holds the same value in
+                        # both runs and is not the zero polynomial, i = 0 (read first), the leading one, one in the middle -- rotating
+                        av = class_alias_vals(n, reads, idx, vals)
+                        ks = [k for k in range(n) if vals[k] == av[k] and vals[k] != "z"]
+                        if not ks:
+                            continue
+                        k = ks[rep % len(ks)]
+                        ncoef = len(str(vals[k]).split(","))
+                        i = [0, ncoef - 1, ncoef // 2][(rep // max(1, len(ks))) % 3]
+                        if op.startswith("div") or op.startswith("mod.sl") or op.startswith("divin") or op.startswith("modin") or op.startswith("mod.s"):
+                            if int(str(vals[k]).split(",")[i]) == 0:
+                                i = ncoef - 1          # a divisor: the leading coefficient is not zero
+                        ex = [k, i] + ([rng.choice([0, 1, 3])] if op.startswith("assign.ds") else [])
                     c = Case("fields", "poly", p, op, n, dests, reads, idx, vals, ex, "Poly1Dom<Modular<int32_t>,Dense>::" + op, POLY_NAMES.get(op))
                     nzp = {"nz1": 1, "nz2": 2, "nz3": 3}.get(tag)
                     if nzp is not None and (c.vals[nzp] == "z" or c.alias_vals()[nzp] == "z"):
@@ -1799,6 +1877,18 @@ def completeness(chk, cases):
         d[c.op] = d.get(c.op, 0) + 1
     chk.cov["call_forms"] = {f: dict(sorted(v.items())) for f, v in sorted(forms.items())}     # per call form: cases driven in this run
     scan, forms = _load_mod("c15_scan"), _load_mod("c15_forms")
+    chk.cov["headers_scanned"] = scan.TU.count("#include")
+    try:
+        ver = subprocess.run(["clang++", "--version"], stdout=subprocess.PIPE, stderr=subprocess.STDOUT, universal_newlines=True, timeout=60).stdout
+    except Exception as ex:
+        ver = repr(ex)
+    chk.cov["clang_version"] = ver.split("\n")[0][:80]
+    import re as _re
+    mver = _re.search(r"clang version (\d+)", ver)
+    if not mver or mver.group(1) != "14":
+        # the declaration keys are spelled as clang 14 prints types: another version is a tooling mismatch, not a violation
+        chk.cov.setdefault("inconclusive", []).append("clang++ 14 not available (%s): the completeness obligation of the harness tables was not checked" % chk.cov["clang_version"])
+        return
     chk.cov["ring_domains_driven"] = sorted(set(c.dom for c in cases if DOM_FAMILY.get(c.dom, "RING") == "RING"))
     try:
         decls, nseen, err = scan.declarations(timeout=900)
@@ -1835,7 +1925,30 @@ def completeness(chk, cases):
             n_indirect += 1; ps["indirect"] += 1
         else:
             n_direct += 1; ps["driven"] += 1
-    gone = ["%s::%s [%s]" % k for k in sorted(forms.FORMS) if k not in decls]
+    # sub-object aliasing: destination and a const operand related by member / half / coefficient (c15_scan.SUBOBJECT)
+    sub = dict(scan.SUBDECLS)
+    n_sub = {"declarations": len(sub), "driven": 0, "indirect": 0, "excluded": 0}
+    for key in sorted(sub):
+        t = forms.lookup_sub(key)
+        if t is None:
+            unmapped.append("%s::%s [%s] (%s)" % (key[0], key[1], key[2], ",".join(sorted(sub[key]))))
+            continue
+        if t.startswith("!"):
+            n_sub["excluded"] += 1
+            excl[t[1:]] = excl.get(t[1:], 0) + 1
+            continue
+        fam, _, rest = t.lstrip("~").partition(":")
+        for o in rest.split(" ")[0].split(","):
+            fo, _, oo = o.rpartition(":")
+            f2 = fo or fam
+            if f2 not in tables or oo not in tables[f2]:
+                badop.append("%s::%s [%s] -> %s:%s" % (key[0], key[1], key[2], f2, oo))
+            elif not cases_replayed(cases) and oo not in fam_ops.get(f2, ()):
+                undriven.append("%s:%s" % (f2, oo))
+        n_sub["indirect" if t.startswith("~") else "driven"] += 1
+    chk.cov["sub_object_declarations"] = n_sub
+    chk.cov["completeness_checked"] = True
+    gone = ["%s::%s [%s]" % k for k in sorted(forms.FORMS) if k not in decls] + ["%s::%s [%s]" % k for k in sorted(forms.SUBFORMS) if k not in sub]
     chk.cov["three_address_declarations"] = {"function_declarations_seen": nseen, "three_address": len(decls), "driven_directly": n_direct,
                                              "driven_indirectly": n_indirect, "excluded": sum(excl.values()), "by_scope": per_scope}
     chk.cov["declarations_excluded_by_reason"] = excl
@@ -1848,6 +1961,12 @@ def completeness(chk, cases):
         chk.broke("completeness: operations of the tables that no case of this run drove: " + ", ".join(sorted(set(undriven))[:20]))
     if gone:
         chk.broke("completeness: entries of harness/c15_forms.py whose declaration is no longer in the headers (removed or re-signed): " + "; ".join(gone[:12]))
+
+
+# minimum number of model/implementation comparisons per model family in one run (about half of what a quick run produces)
+TIE_FLOORS_QUICK = {"ring": 9000, "rm": 1200, "rudivop": 100, "ext": 250, "poly": 350, "polyb": 80, "pdivmod": 35, "pdivmodin": 10, "pgcdx": 60,
+                    "ppdivmod": 35, "ppmod": 15, "q": 40, "divmod": 30, "divmodw": 12, "gcd4": 30, "gcd5": 50, "powmod": 20}
+TIE_FLOORS_THOROUGH = dict(TIE_FLOORS_QUICK)
 
 
 def cases_replayed(cases):
@@ -2034,12 +2153,15 @@ def main(tier, replay=None):
     phase["model_run"] = round(_time.time() - t0, 1); t0 = _time.time()
     # 6. verdicts
     ncorr = 0
+    tie_by = {}
+    judged_by = {}
     dist_dom, dist_pat = {}, {}
     for i, c in enumerate(cases):
         if outs[i] is None:
             continue
         pat = pattern_name(c.idx, c.names)
         klass = alias_class(c.idx, c.dests, c.names)
+        judged_by[c.exe] = judged_by.get(c.exe, 0) + 1
         dist_dom[c.dom] = dist_dom.get(c.dom, 0) + 1
         dist_pat[pat] = dist_pat.get(pat, 0) + 1
         chk.count((c.dom, str(c.param), c.op, tuple(c.idx), tuple(str(v) for v in c.vals), tuple(str(e) for e in c.extra)),
@@ -2049,6 +2171,19 @@ def main(tier, replay=None):
         d.update({"exe": c.exe, "dests": c.dests, "reads": c.reads})
         if i % 4999 == 0:
             s = dict(d); s["impl"] = outs[i]; chk.sample(s)
+        if po is None and outs[i].rstrip().endswith(" CRASH 24"):
+            # SIGXCPU: the case used up its CPU budget.  Re-run that one case alone with a six times larger budget before
+            # calling it a call that does not return (CPU time does not depend on the machine load).
+            rc2, o2, e2 = _run_lines_env(exes[c.exe], c.line() + "\n", timeout=1500, env_extra={"C15_CPU_BUDGET": "120"})
+            if rc2 == 0 and len(o2) == 1 and " CRASH " not in o2[0]:
+                outs[i] = o2[0]
+                po = parse_out(outs[i], c.n)
+                chk.cov.setdefault("cpu_budget_retries", []).append(c.line()[:200])
+            elif rc2 == 0 and len(o2) == 1 and o2[0].rstrip().endswith(" CRASH 24"):
+                which = "aliased call (%s)" % pat if outs[i].startswith("F ") else "call on distinct objects"
+                chk.fail_input(c.site + ("" if outs[i].startswith("F ") else " (distinct objects)"), klass if outs[i].startswith("F ") else "distinct objects",
+                               d, "a result", "does not return", "%s: does not return within 120 s of CPU time (re-run alone) :: %s" % (which, o2[0]))
+                continue
         if po is None and " CRASH " in outs[i]:
             sig = outs[i].split(" CRASH ")[1].strip()
             if outs[i].startswith("F "):
@@ -2103,6 +2238,8 @@ def main(tier, replay=None):
         # (c) correspondence with the extracted model (not reported again for a case that already failed)
         if mout is not None and i in mout:
             ncorr += 1
+            mfam = model_lines(c)[0].split()[0]
+            tie_by[mfam] = tie_by.get(mfam, 0) + 1
             if bad is None:
                 for tag, ml, iv, ir in (("distinct", mout[i][0], Fv, Fr), (pat, mout[i][1], Av, Ar)):
                     mv, mr = model_view(c, ml)
@@ -2130,6 +2267,30 @@ def main(tier, replay=None):
                        "distinct = (domain, modulus, op, partition, values)")
     phase["verdicts"] = round(_time.time() - t0, 1)
     chk.cov["phase_seconds"] = phase
+    # ---- floors: what was actually compared in this run.  A stream that fell short because OUR tooling timed out is listed in
+    # coverage.inconclusive AND coverage.floor_missed (never counted as a pass of that stream); a stream that fell short for any
+    # other reason (a filter that swallowed a family, a harness that printed no INFO line) breaks the obligation.
+    floor_missed = []
+    if not replay:
+        for fam, fl in sorted((TIE_FLOORS_QUICK if quick else TIE_FLOORS_THOROUGH).items()):
+            if tie_by.get(fam, 0) < fl:
+                floor_missed.append("model tie '%s': %d comparisons, floor %d" % (fam, tie_by.get(fam, 0), fl))
+        gen_by = {}
+        for c in cases:
+            gen_by[c.exe] = gen_by.get(c.exe, 0) + 1
+        for k, ng in sorted(gen_by.items()):
+            if judged_by.get(k, 0) < 0.98 * ng:
+                floor_missed.append("harness stream '%s': %d of %d cases judged" % (k, judged_by.get(k, 0), ng))
+        if chk.cov.get("completeness_checked") is not True:
+            floor_missed.append("completeness obligation (clang AST) not checked")
+    chk.cov["floor_missed"] = floor_missed
+    chk.cov.setdefault("inconclusive", [])
+    if floor_missed and not chk.cov["inconclusive"]:
+        chk.broke("comparison floors missed without a recorded tooling time-out: " + "; ".join(floor_missed[:8]))
+    elif floor_missed:
+        vf.log("C15: INCONCLUSIVE STREAMS (tooling time-outs; not counted as passes): " + "; ".join(floor_missed[:8]))
+    chk.cov["model_ties_by_family"] = dict(sorted(tie_by.items()))
+    chk.cov["cases_judged_by_stream"] = dict(sorted(judged_by.items()))
     chk.cov["traces_validated_against_impl"] = ncorr
     chk.cov["model_covered_cases"] = len(cand)
     chk.cov["model_stride"] = stride
